@@ -259,7 +259,7 @@ _mk("C20",
     extra_tb=["cobra, influxdb1-client, encoding/json, zap (observed through the binary)"], exhaustive=False)
 
 _mk("C18",
-    ["Platypus.Properties.C18", "Platypus.Properties.C18Agree", "Platypus.Properties.C17Runtime"],
+    ["Platypus.Properties.C18", "Platypus.Properties.C18Agree", "Platypus.Properties.C17Runtime", "Platypus.Properties.C15"],
     rule="v2 engine (engine.ParseV2 + Script.Run) with probe functions supplied through the function table (p records, pr records and returns its first argument, void returns nothing, multi returns two values, len): "
          "33 consuming positions (assignment source, condition, operands, arguments, loop clauses, iterable, list/map elements and keys, index, every slice bound, unary, membership, compound assignment, multi-assignment, parenthesis) "
          "x 9 constructs (void call, attribute expression, multi-value calls, empty pr, variable, literal, undefined name, nil); multi-assignment programs; random programs of the shared language "
